@@ -526,9 +526,30 @@ func VerifHarness_C01_O4b() {
 	}
 }
 
-func verifRoundReceived(n0, n, R int) bool {
+func verifRoundReceived(n0, n, R int) bool { return verifRoundReceivedLB(n0, n, R, -1) }
+
+// O4c: round-received on a node that was reset by fast-sync: rounds at or below
+// the anchor round (roundLowerBound) that are not decided are SKIPPED (their
+// events are already committed or will be received later), rounds above it stop
+// the scan as usual.  The lower bound is a shape case 0..1 below 2 candidate rounds (thorough: 0..2).
+func VerifHarness_C01_O4c() {
+	lb, R := 0, 2
+	if verifTier() > 0 {
+		lb = verifChoice("roundLowerBound", 3) // R = 3 exceeds the path budget (3^9 fame cases x skips)
+	} else {
+		lb = verifChoice("roundLowerBound", 2)
+	}
+	if verifRoundReceivedLB(3, 3, R, lb) {
+		verifReach("received-on-a-reset-node")
+	}
+}
+
+func verifRoundReceivedLB(n0, n, R int, lowerBound int) bool {
 	vn := verifNewNet(n0, 100)
 	h := vn.h
+	if lowerBound >= 0 {
+		h.roundLowerBound = &lowerBound
+	}
 	if n < n0 {
 		if err := h.Store.SetPeerSet(1, vn.set.WithRemovedPeer(vn.peers[n0-1])); err != nil {
 			panic(err)
@@ -591,7 +612,9 @@ func verifRoundReceived(n0, n, R int) bool {
 		decided := undec == 0 && 3*dec > 2*n
 		if !stopped && want < 0 {
 			if !decided {
-				stopped = true
+				if i > lowerBound {
+					stopped = true
+				}
 			} else if famSee == fam && 3*fam > 2*n {
 				want = i
 			}
@@ -760,3 +783,8 @@ func VerifHarness_C01_O2c() {
 	}
 	verifReach("end")
 }
+
+// C13/O6 — the same obligation, for fast-sync continuity: a reset node assigns
+// the round-received a full-history node assigns (rounds above the anchor are
+// never skipped).
+func VerifHarness_C13_O6() { VerifHarness_C01_O4c() }
